@@ -27,5 +27,6 @@ def run(ctx, rep):
     from . import lin as _lin
     _lin.x4(ctx, rep)
     _lin.x5(ctx, rep)
+    _lin.x6(ctx, rep)
     guard.x2(ctx, rep)
     ub.p3(ctx, rep, rule="X3")
